@@ -87,6 +87,7 @@ def run(ctx):
     for arch in TARGETS:
         grammar_cells(ctx, dump, arch, "C29.R3")
     _context_interface(ctx, dump)
+    _vregs_before_trees(ctx)
     from .c05 import phi_lowering
     phi_lowering(ctx, "C29.R8")      # the CFG preparation before selection must not die on any verifier-valid shape (cjmp c ? S : S)
 
@@ -214,3 +215,28 @@ def _context_interface(ctx, dump):
                 n += 1
                 ctx.ob("C29.R7", "%s:%s" % (fn._module.rel, fn.name), "`context.%s` used by the %s pattern is provided by MiniCtx (spill code)" % (a, root), a in provided, construct="ctx-attr:%s:%s" % (fn.name, a))
     return n
+
+
+def _vregs_before_trees(ctx):
+    """R9: a value used in another block than its own travels in a virtual register (check_vreg).  The blocks of a
+    function are turned into trees in LAYOUT order, which need not respect dominance (the increment block of a `for`
+    with `continue` is created before the body blocks), so every value of the WHOLE function must have its register
+    before the first block is split: mk_tr raises `does require vreg` otherwise."""
+    DS = "ppci/codegen/dagsplit.py"
+    ctx.rule("C29.R9", "DagSplitter.split_into_trees assigns virtual registers for the whole selection graph before any block is split into trees (layout order is not dominance order)", floor=3)
+    st = ctx.fn(DS, "DagSplitter.split_into_trees")
+    site = DS + ":DagSplitter.split_into_trees"
+    av = [c for c in ast.walk(st) if isinstance(c, ast.Call) and norm(c.func) == "self.assign_vregs"]
+    loops = [l for l in walk_no_nested(st) if isinstance(l, ast.For) and any(isinstance(c, ast.Call) and norm(c.func) == "self.split_group_into_trees" for c in ast.walk(l))]
+    ctx.need(len(loops) == 1, "split_into_trees: loop over the blocks not found")
+    ok = len(av) == 1 and av[0].args and norm(av[0].args[0]) == st.args.args[1].arg and av[0].lineno < loops[0].lineno and not any(x is av[0] for x in ast.walk(loops[0]))
+    ctx.ob("C29.R9", site, "assign_vregs(<the whole graph>) runs once, before the loop that splits the blocks", ok, construct="vregs-for-whole-graph-first", detail=norm(av[0])[:60] if av else "no call")
+    avf = ctx.fn(DS, "DagSplitter.assign_vregs")
+    lp = [l for l in walk_no_nested(avf) if isinstance(l, ast.For)]
+    ok = len(lp) == 1 and norm(lp[0].iter) == avf.args.args[1].arg and any(isinstance(c, ast.Call) and norm(c.func) == "self.check_vreg" for c in ast.walk(lp[0])) \
+        and not any(isinstance(x, (ast.Break, ast.Return)) for x in ast.walk(lp[0]))
+    ctx.ob("C29.R9", DS + ":DagSplitter.assign_vregs", "every node of the graph that belongs to a block is checked", ok, construct="all-nodes-checked")
+    cv = ctx.fn(DS, "DagSplitter.check_vreg")
+    txt = " ".join(norm(cv).split())
+    ok = "u.group is not node.group" in txt and "len(data_output.users) > 1" in txt and "frame.new_reg(" in txt
+    ctx.ob("C29.R9", DS + ":DagSplitter.check_vreg", "a value gets a register when it has several users or a user in another block", ok, construct="cross-block-gets-vreg")
